@@ -771,6 +771,8 @@ class CallMixin:
         for name in c.ensures_names():
             if _refuted_known(f"{c.target}/post.{name}"):
                 continue  # a clause recorded as refuted (known finding) must never be assumed at call sites
+            if any(a.arg == "effects" for a in c.methods[name].args.args):
+                continue  # talks about the callee's own effect ledger: proved there, not assumed here
             self.assume(truthy(self.spec_eval(c, name, vals)))
         return result
 
@@ -792,6 +794,8 @@ class CallMixin:
         for name in sorted(n for n in c.methods if n.startswith("on_raise")):
             if _refuted_known(f"{c.target}/post.{name}"):
                 continue  # an exceptional-exit clause recorded as refuted (known finding) is never assumed by callers
+            if any(a.arg == "effects" for a in c.methods[name].args.args):
+                continue  # talks about the callee's own effect ledger: proved there, not assumed here
             self.assume(truthy(self.spec_eval(c, name, vals)))
         raise RaiseSig(VExc(cls, payload))
 
@@ -1722,6 +1726,16 @@ class CallMixin:
             return VAny(newval)
         if name == "copy":
             return VDict(d.t)
+        if name == "clear" and not args and not kwargs:
+            d.t = EmptyDict  # in-place: every key becomes absent
+            return VNone()
+        if name == "update" and len(args) == 1 and not kwargs and isinstance(args[0], (VDict, VAny)):
+            # d.update(other) with a symbolic `other`: TypeError/ValueError unless it is a mapping; the merged content
+            # is not modelled -- the dict is forgotten (sound: nothing is claimed about it afterwards)
+            if isinstance(args[0], VAny):
+                self.maybe_raise(ValSort.is_D(args[0].t), "TypeError", lineno)
+            d.t = z3.Const(fresh_name("updated"), d.t.sort())
+            return VNone()
         if name == "update":
             raise Unsupported("dict.update on symbolic dict")
         if name in ("items", "keys", "values"):
